@@ -36,8 +36,12 @@ type fdObj struct {
 	closeFn  func() error
 	fds      []int
 	live     bool
-	conn     sonic.Conn
+	conn     fdReader
 	inflight bool // a read is deferred to the poller: the object must be in the IO's registry
+}
+
+type fdReader interface {
+	AsyncRead(b []byte, cb sonic.AsyncCallback)
 }
 
 func runFDs(c *Case) []string {
@@ -85,7 +89,18 @@ func runFDs(c *Case) []string {
 				if !fdValid(fd) {
 					return 0
 				}
-				if o.inflight && !ioc.VerifRegistered(fd) {
+			}
+		}
+		return 1
+	}
+	// every live object with a read deferred to the poller is the one the IO's registry keeps alive under its descriptor number
+	rooted := func(except string) int {
+		for id, o := range objs {
+			if id == except || !o.live || !o.inflight {
+				continue
+			}
+			for _, fd := range o.fds {
+				if a := ioc.VerifRegisteredAddr(fd); a == 0 || a != sonic.VerifSlotAddr(o.conn) {
 					return 0
 				}
 			}
@@ -116,6 +131,23 @@ func runFDs(c *Case) []string {
 			accepted = append(accepted, p)
 			r := reg(a[0], nil, []int{conn.RawFd()}, conn.Close)
 			objs[a[0]].conn = conn
+			return r
+		case "adapter":
+			// an AsyncAdapter over a net.Conn: the net.Conn owns the descriptor and is what gets closed
+			nc, err := net.Dial("tcp", ln.Addr().String())
+			if err != nil {
+				return reg(a[0], err, nil, nil)
+			}
+			p, _ := ln.Accept()
+			accepted = append(accepted, p)
+			var ad *sonic.AsyncAdapter
+			sonic.NewAsyncAdapter(ioc, nc.(syscall.Conn), nc, func(err error, x *sonic.AsyncAdapter) { ad = x })
+			if ad == nil {
+				_ = nc.Close()
+				return reg(a[0], fmt.Errorf("adapter"), nil, nil)
+			}
+			r := reg(a[0], nil, []int{ad.RawFd()}, nc.Close)
+			objs[a[0]].conn = ad
 			return r
 		case "dialudp":
 			addr := busyUDP.LocalAddr().String()
@@ -237,19 +269,21 @@ func runFDs(c *Case) []string {
 			// a read deferred to the poller (nothing to read yet)
 			o := objs[a[0]]
 			if o == nil || o.conn == nil || !o.live {
-				return fmt.Sprintf("open=%d intact=%d", delta(), intact(""))
+				return fmt.Sprintf("open=%d intact=%d rooted=%d", delta(), intact(""), rooted(""))
 			}
-			o.conn.AsyncRead(make([]byte, 4), func(error, int) {})
+			if !o.inflight {
+				o.conn.AsyncRead(make([]byte, 4), func(error, int) {})
+			}
 			o.inflight = true
-			return fmt.Sprintf("open=%d intact=%d", delta(), intact(""))
+			return fmt.Sprintf("open=%d intact=%d rooted=%d", delta(), intact(""), rooted(""))
 		case "close":
 			o := objs[a[0]]
 			if o == nil {
-				return fmt.Sprintf("err=- open=%d intact=%d", delta(), intact(""))
+				return fmt.Sprintf("err=- open=%d intact=%d rooted=%d", delta(), intact(""), rooted(""))
 			}
 			err := o.closeFn()
 			o.live = false
-			return fmt.Sprintf("err=%d open=%d intact=%d", b2i(err != nil), delta(), intact(a[0]))
+			return fmt.Sprintf("err=%d open=%d intact=%d rooted=%d", b2i(err != nil), delta(), intact(a[0]), rooted(a[0]))
 		case "gcprobe":
 			// gcprobe <read|both>: an object with operations in flight, no user reference left, two GC cycles, then the
 			// peer makes it ready: the callback must run and nothing it captured may have been finalised
